@@ -54,14 +54,20 @@ fn cycle_refs<T>(this: Link<T>) -> HashMap<Link<T>, usize> {
 
         let links = unsafe { node.as_ref().links().borrow() };
         for (&link, &strong) in links.iter() {
-            if let Kind::Forward | Kind::Loopback = link.kind() {
-                cycle_owned_refs
-                    .entry(link)
-                    .and_modify(|count| *count += strong)
-                    .or_insert(strong);
-                discovered.push(link);
-            } else {
-                cycle_owned_refs.entry(link.as_forward()).or_default();
+            match link.kind() {
+                Kind::Forward => {
+                    cycle_owned_refs
+                        .entry(link)
+                        .and_modify(|count| *count += strong)
+                        .or_insert(strong);
+                    discovered.push(link);
+                }
+                Kind::Backward => {
+                    cycle_owned_refs.entry(link.as_forward()).or_default();
+                }
+                // Self-adoptions have no effect: a loopback link is not an
+                // owned reference, and `node` has already been traced.
+                Kind::Loopback => {}
             }
         }
     }
